@@ -220,6 +220,21 @@ func verifLemmaMaxBodyTight(c *channelInstance, m *Message, chunkSize int, chunk
 //@   loop 0 invariant [C11:lock-kept] held(&instance.Mutex) && released(&instance.Mutex) == rel0
 //@   loop 0 invariant [C11:consecutive] instance.sequenceNumber == seqAfter(s0, ite(rangeindex < 0, 0, rangeindex))
 
+// The client sender: one lock hold spans numbering the message and writing all its chunks.
+//@ func (*SecureChannel).sendAsyncWithTimeout
+//@   props C11
+//@   frame_only
+//@   use (*channelInstance).signAndEncrypt@frame
+//@   uses seqAfter0, seqAfterS
+//@   requires s != nil && s.c != nil && seqInv(instance) && instance.algo != nil
+//@   let rel0 = released(&instance.Mutex)
+//@   assigns *
+//@   ensures [C11:one-hold] released(&instance.Mutex) == rel0 + 1
+//@   loop 0 invariant -1 <= rangeindex && rangeindex < len(chunks)
+//@   loop 0 invariant s != nil && s.c != nil && seqInv(instance) && instance.algo != nil && m != nil && m.MessageHeader != nil && m.MessageHeader.SequenceHeader != nil
+//@   loop 0 invariant [C11:lock-kept] held(&instance.Mutex) && released(&instance.Mutex) == rel0
+//@   loop 0 invariant [C11:consecutive] instance.sequenceNumber == seqAfter(m.MessageHeader.SequenceHeader.SequenceNumber, ite(rangeindex < 0, 0, rangeindex))
+
 //@ func (*SecureChannel).sendResponseWithContext
 //@   props C11
 //@   frame_only
